@@ -365,12 +365,17 @@ fn read_typed<T: Copy + PartialOrd + Send + Sync + std::fmt::Debug + 'static>(
         ranges.push(json!({"lo":certs.below(key, &conv(lo)),"hiu":certs.upto(key, &conv(hi)),"rows":out}));
     };
     if !vals.is_empty() {
-        for k in 0..4 {
+        // (tables of more than 50,000 rows: fewer lookups, their results are long)
+        let big = n > 50_000;
+        for k in 0..(if big { 2 } else { 4 }) {
             let (a, b) = (vals[rng.random_range(0..vals.len())], vals[rng.random_range(0..vals.len())]);
             let (lo, hi) = if k == 0 { (a, a) } else if vcmp(&conv(a), &conv(b)) == Ordering::Greater { (b, a) } else { (a, b) };
             one(lo, hi, &mut ranges);
         }
-        let fars = far(col.min_value(), col.max_value());
+        let mut fars = far(col.min_value(), col.max_value());
+        if big {
+            fars = vec![fars[0], fars[fars.len() / 2]];
+        }
         let some = vals[rng.random_range(0..vals.len())];
         for (i, &f) in fars.iter().enumerate() {
             // [value read, far bound] or [far bound, value read], and pairs of far bounds
@@ -752,6 +757,19 @@ fn run_index(tracer: &Tracer, case: &Value) {
             }
             for (lo, hi) in [(i64::MIN, (1i64 << 32) + 5), (-3000, 1 << 33), (0, i64::MAX), (-1, (1 << 32) - 2500)] {
                 run_q("i|num", V::I(lo), V::I(hi), Term::from_field_i64(ifield, lo), Term::from_field_i64(ifield, hi));
+            }
+            // ExistsQuery: the rows holding at least one value
+            for (fname, key) in [("u", "u|num"), ("ip", "ip|ip"), ("s", "s|str")] {
+                let q = tantivy::query::ExistsQuery::new(fname.to_string(), false);
+                match catch_unwind(AssertUnwindSafe(|| s.search(&q, &tantivy::collector::DocSetCollector))) {
+                    Ok(Ok(set)) => {
+                        let mut r: Vec<u32> = set.iter().filter(|a| a.segment_ord as usize == ord).map(|a| a.doc_id).collect();
+                        r.sort();
+                        queries.push(json!({"key":key,"exists":true,"rows":r}));
+                    }
+                    Ok(Err(e)) => queries.push(json!({"key":key,"error":e.to_string()})),
+                    Err(_) => queries.push(json!({"key":key,"panic":true})),
+                }
             }
             tracer.emit(json!({"ev":"read","t":0,"phase":phase,"seg":ord,"nrows":sr.max_doc(),"rows":rows,"alive":alive,"cols":cols,"queries":queries,"unknown":unknown}));
         }
